@@ -79,3 +79,41 @@ Proof. glink. Qed.
 Lemma link_partial_cmp s o :
   option_map pord_of (M_CharSet_partial_cmp s o) = Some (cs_pcmp (conv s) (conv o)).
 Proof. glink. Qed.
+
+(* inter_list: the for loop is a fixpoint over the remaining slice.  The loop body is linked through
+   the link lemma of inter (not through its text), so a rewrite of inter that keeps link_inter keeps this *)
+Lemma link_inter_cases s o :
+  (exists q, M_CharSet_inter s o = Some (Some q) /\ cs_inter (conv s) (conv o) = Some (conv q)) \/
+  (M_CharSet_inter s o = Some None /\ cs_inter (conv s) (conv o) = None).
+Proof.
+  pose proof (link_inter s o) as H.
+  destruct (M_CharSet_inter s o) as [[q|]|]; cbn [option_map] in H; try discriminate H.
+  - left. exists q. split; [reflexivity | congruence].
+  - right. split; [reflexivity | congruence].
+Qed.
+
+Lemma link_inter_fold l : forall r,
+  match CharSet_inter_list_loop1 l r with
+  | Some (LoopReturn x) => x = None /\ cs_inter_fold (conv r) (map conv l) = None
+  | Some (LoopDone q) => cs_inter_fold (conv r) (map conv l) = Some (conv q)
+  | None => False
+  end.
+Proof.
+  induction l as [|s l IH]; intros r; cbn [CharSet_inter_list_loop1 map cs_inter_fold]; [reflexivity|].
+  destruct (link_inter_cases r s) as [[q [H1 H2]]|[H1 H2]]; rewrite H1, H2; cbn [bind].
+  - apply IH.
+  - split; reflexivity.
+Qed.
+
+Lemma link_inter_list a :
+  option_map (option_map conv) (M_CharSet_inter_list a) = Some (cs_inter_list (map conv a)).
+Proof.
+  unfold M_CharSet_inter_list, CharSet_inter_list, cs_inter_list.
+  destruct a as [|s t]; [reflexivity|].
+  cbn [nth_error bind map length Nat.leb skipn].
+  pose proof (link_inter_fold t s) as H.
+  destruct (CharSet_inter_list_loop1 t s) as [[x|q]|]; cbn [bind option_map].
+  - destruct H as [-> H]. rewrite H. reflexivity.
+  - rewrite H. reflexivity.
+  - contradiction.
+Qed.
